@@ -84,15 +84,20 @@ def run_harness(crate, harness, timeout_s, mem_gb=12, extra_args=()):
     env["CARGO_NET_OFFLINE"] = "true"
     cmd = ["cargo", "kani", "-Z", "stubbing", "--target-dir", tdir, "--harness", harness] + list(extra_args)
     t0 = time.time()
+    # own process group, so a timeout can kill cargo-kani AND its cbmc children without pattern matching
+    proc = subprocess.Popen(cmd, cwd=src, env=env, stdout=subprocess.PIPE, stderr=subprocess.STDOUT, text=True,
+                            preexec_fn=lambda: (os.setsid(), _limits(mem_gb)()))
     try:
-        p = subprocess.run(cmd, cwd=src, env=env, stdout=subprocess.PIPE, stderr=subprocess.STDOUT, text=True,
-                           timeout=timeout_s, preexec_fn=_limits(mem_gb))
-        out = p.stdout
+        out, _ = proc.communicate(timeout=timeout_s)
         timed_out = False
-    except subprocess.TimeoutExpired as e:
-        out = (e.stdout or b"").decode("utf8", "replace") if isinstance(e.stdout, bytes) else (e.stdout or "")
+    except subprocess.TimeoutExpired:
         timed_out = True
-        subprocess.run(["pkill", "-f", f"{harness}"], check=False)
+        try:
+            os.killpg(proc.pid, 9)
+        except ProcessLookupError:
+            pass
+        out, _ = proc.communicate()
+        out = out or ""
     res = parse_kani_output(crate, out).get(harness)
     if res is None:
         res = HarnessResult(crate, harness)
@@ -165,7 +170,7 @@ def playback(crate, harness, timeout_s=900):
     return True, m.group(1)
 
 
-def write_evidence(pid, tier, t0, results, functions, bounds, assumptions, extra=None, violations=0, known=None):
+def write_evidence(pid, tier, t0, results, functions, bounds, assumptions, extra=None, violations=0, known=None, level="model_checking"):
     ok = [r for r in results if r.verdict == "SUCCESSFUL"]
     cov = {
         "evaluations": len(results),
@@ -188,7 +193,10 @@ def write_evidence(pid, tier, t0, results, functions, bounds, assumptions, extra
         cov.update(extra)
     if known:
         cov["known_findings_reported"] = known
-    ev = {"property_id": pid, "tier": tier, "seed": env_seed(), "level": "model_checking", "coverage": cov,
+    if level == "other":
+        cov["explanation"] = ("mixed: one clause decided by bounded model checking of the real code, one clause by solver-generated "
+                              "counterexample candidates executed against the real code (see bounds)")
+    ev = {"property_id": pid, "tier": tier, "seed": env_seed(), "level": level, "coverage": cov,
           "assumptions": assumptions, "wall_s": round(time.time() - t0, 1), "violations": violations}
     os.makedirs(os.path.join(VERIF, "evidence"), exist_ok=True)
     json.dump(ev, open(os.path.join(VERIF, "evidence", f"{pid}.json"), "w"), indent=1)
